@@ -295,6 +295,10 @@ def generate(tier, rng):
     # reported, and the tree must not silently lack the text)
     fixed += ["Hello {{qzx := }} world", "- item {{qzx := }} more\n- second\n", "Total {{(qzx + 1}} done", "A {{x := [1 2}} b\n\nnext paragraph",
               "1. one {{y<u8 := 1}} two\n2. three", "> quote {{z := 0x}} end", "text {{a := {1, 2}} tail {{b := 2}} end", "Para {{f(x}} and {{g(}}.\n"]
+    # Mechdown inline elements with empty or missing parts (hyperlinks, images, footnote references, inline code)
+    fixed += ["See [the docs]() for details.\n", "[a]()", "[a](", "[](x)", "[]()", "![img]()", "![](x.png)", "- item [a]()\n- other\n",
+              "| h |\n|---|\n| [a]() |\n", "text [^1] more\n\n[^1]: \n", "``", "` `", "**", "****", "__", "~~ ~~", "{{}}", "{{ }}", "$$", "$$ $$",
+              "> \n", "(i)> \n", "[x](y)[z]()", "[[a]()](b)"]
     for t in fixed:
         add(emit(t, stream="fixed"))
     # all one- and two-character strings over a compact alphabet
